@@ -1030,6 +1030,15 @@ impl AutosarModel {
     }
 }
 
+#[cfg(autosar_data_verif)]
+impl AutosarModel {
+    /// verification hook (H1): all keys of the reverse reference map, so that stale keys can be observed
+    #[must_use]
+    pub fn verif_reference_origin_keys(&self) -> Vec<String> {
+        self.0.read().reference_origins.keys().cloned().collect()
+    }
+}
+
 impl AutosarModelRaw {
     pub(crate) fn set_version(&mut self, new_ver: AutosarVersion) {
         let attribute_value = CharacterData::String(format!("http://autosar.org/schema/r4.0 {}", new_ver.filename()));
